@@ -48,6 +48,20 @@ def affine_case(rng, kind, variant):
     # both materials anisotropic, with different ratios between their two directions
     a1x, a1y = rng.choice([(1.0, 5.0), (2.0, 1.0), (4.0, 3.0), (2.0, 2.0)])
     a2x, a2y = rng.choice([(3.0, 8.0), (8.0, 2.0), (6.0, 6.0)])
+    if kind == "fem":
+        a2x, a2y = rng.choice([(100.0, 100.0), (5.0, 50.0), (60.0, 7.0)])
+    elif kind == "feh" and rng.random() < 0.3:
+        a1x, a1y = 40.0, 25.0
+    # "nearly the same" materials (the post-processors' nodal smoothing stops at material borders by comparing material
+    # constants): the second material is the first with ONE constant changed, or with the two directions exchanged, the first
+    # one isotropic half of the time
+    near = two and rng.random() < 0.5
+    if near:
+        if rng.random() < 0.5:
+            a1y = a1x
+        c = rng.choice([v for v in (1.0, 2.0, 3.0, 5.0, 8.0) if v not in (a1x, a1y)])
+        a2x, a2y = rng.choice([(a1x, c), (c, a1y), (a1y, a1x) if a1x != a1y else (a1x, c), (a1x, c)])
+    info["near_same_materials"] = near
     if kind == "fee":
         m1 = B.prop("blockprops", name="m1", ex=a1x, ey=a1y, qv=0.0)
         m2 = B.prop("blockprops", name="m2", ex=a2x, ey=a2y, qv=0.0)
@@ -55,8 +69,6 @@ def affine_case(rng, kind, variant):
         bB = B.prop("bdryprops", name="B", type=0, V=V1)
         e1, e2 = (a1x, a2x) if along == "x" else (a1y, a2y)
     elif kind == "feh":
-        if rng.random() < 0.3:
-            a1x, a1y = 40.0, 25.0
         m1 = B.prop("blockprops", name="m1", kx=a1x, ky=a1y, kt=0.0, qv=0.0)
         m2 = B.prop("blockprops", name="m2", kx=a2x, ky=a2y, kt=0.0, qv=0.0)
         V0, V1 = 300.0 + V0, 300.0 + V1
@@ -69,7 +81,6 @@ def affine_case(rng, kind, variant):
             bB = B.prop("bdryprops", name="B", type=0, Tset=V1)
         e1, e2 = (a1x, a2x) if along == "x" else (a1y, a2y)
     else:
-        a2x, a2y = rng.choice([(100.0, 100.0), (5.0, 50.0), (60.0, 7.0)])
         m1 = B.prop("blockprops", name="m1", mu_x=a1x, mu_y=a1y)
         m2 = B.prop("blockprops", name="m2", mu_x=a2x, mu_y=a2y)
         V0, V1 = V0 * 1e-3, V1 * 1e-3
@@ -140,6 +151,70 @@ def affine_case(rng, kind, variant):
     return p, exact, info
 
 
+FIELD_STATS = dict(points=0, interface_points=0, worst=0.0)
+
+
+def check_fields(ctx, kind, p, exact, info, nodes, elems, wd):
+    """field values (second clause of the property: 'derived quantities (... field values) equal their closed-form values', observed
+    at post-processor point values with the default settings, i.e. nodal smoothing ON): the gradient / curl of the exact piecewise
+    linear solution at the centroids of elements next to the material interface (both sides), next to the outer boundary and
+    elsewhere; flux quantities with the material constant of the region"""
+    u = UNIT_M[p["units"]]
+    segs = p["segments"]
+    pts = p["points"]
+    # interface = the segment added last in two-material cases
+    iface = None
+    if len(p["labels"]) == 2:
+        sg = segs[-1]
+        iface = (pts[sg["n0"]], pts[sg["n1"]])
+    def on_iface(n):
+        if not iface:
+            return False
+        (a, b) = iface
+        ax, ay, bx, by = a["x"], a["y"], b["x"], b["y"]
+        return abs((bx - ax) * (n[1] - ay) - (by - ay) * (n[0] - ax)) < 1e-9 * (abs(bx - ax) + abs(by - ay))
+    near, other = [], []
+    for e in elems:
+        tri = [nodes[i] for i in e[:3]]
+        c = (sum(t[0] for t in tri) / 3.0, sum(t[1] for t in tri) / 3.0)
+        (near if any(on_iface(t) for t in tri) else other).append(c)
+    rng = vlib.Rng(ctx.seed + len(elems))
+    rng.shuffle(near); rng.shuffle(other)
+    cents = near[:10] + other[:6]
+    if not cents:
+        return None
+    r, err = femmrun.run(ctx, p, [("point", c[0], c[1]) for c in cents], "probf", workdir=wd)
+    if err:
+        return "run failed on a well-formed problem (field queries): " + err
+    xs = [n[0] for n in nodes]; ys = [n[1] for n in nodes]
+    h = 1e-7 * max(max(xs) - min(xs), max(ys) - min(ys))
+    grads = []
+    for c in cents:
+        gx = (exact(c[0] + h, c[1]) - exact(c[0] - h, c[1])) / (2 * h * u)
+        gy = (exact(c[0], c[1] + h) - exact(c[0], c[1] - h)) / (2 * h * u)
+        grads.append((gx, gy))
+    gmax = max(max(abs(g[0]), abs(g[1])) for g in grads) or 1.0
+    for k, (c, g) in enumerate(zip(cents, grads)):
+        v = r["q%d" % k]
+        if kind == "fee":
+            got = (v[3], v[4]); want = (-g[0], -g[1]); name = "E"
+        elif kind == "feh":
+            got = (v[3], v[4]); want = (-g[0], -g[1]); name = "G"
+        else:
+            if p["problemtype"] != "planar":
+                continue
+            got = (v[1], v[2]); want = (g[1], -g[0]); name = "B"
+        errv = max(abs(got[0] - want[0]), abs(got[1] - want[1]))
+        FIELD_STATS["points"] += 1
+        FIELD_STATS["interface_points"] += 1 if k < len(near[:10]) else 0
+        FIELD_STATS["worst"] = max(FIELD_STATS["worst"], errv / gmax)
+        if errv > 1e-3 * gmax:
+            return ("field value %s at (%.9g,%.9g)%s: post-processor returned (%.10g, %.10g), the exact (piecewise constant) field is "
+                    "(%.10g, %.10g) [default settings, smoothing on]" % (name, c[0], c[1], " in an element touching the material interface"
+                                                                           if k < len(near[:10]) else "", got[0], got[1], want[0], want[1]))
+    return None
+
+
 def check_affine(ctx, k, p, exact, info):
     kind = p["kind"]
     wd = os.path.join(ctx.work, "aff%d" % k)
@@ -162,6 +237,9 @@ def check_affine(ctx, k, p, exact, info):
         i = max(range(len(nodes)), key=lambda i: abs(nodes[i][2] - vals[i]))
         return ("node %d at (%g,%g): solver returned %.12g, the exact linear solution is %.12g (mesh of %d nodes)"
                 % (i, nodes[i][0], nodes[i][1], nodes[i][2], vals[i], len(nodes)))
+    msg = check_fields(ctx, kind, p, exact, info, nodes, elems, wd)
+    if msg:
+        return msg
     if kind == "fee" and "E" in info and info["variant"] not in ("series", "axi-series"):
         W = r["q2"][0]
         want = 0.5 * EO * info["eps"] * info["E"] ** 2 * info["vol"]
@@ -318,4 +396,5 @@ def correspond(ctx):
     cov["input_distribution"] = feats
     cov["samples"] = samples
     cov["refinement_errors"] = conv
+    cov["field_values_compared_with_closed_form"] = dict(FIELD_STATS)
     return []
